@@ -297,18 +297,18 @@ static void item_str(uint64_t i)
 
 /* ---------------- domain gram ---------------- */
 static const char *G_SCHEME[] = { "", "http:", "a+.-1:", "1a:", ":" };
-static const char *G_USER[] = { NULL, "", "u", "u:p", "%41!$", "%4g" };
+static const char *G_USER[] = { NULL, "", "u", "u:p", "%41!$", "%4g", "\xfc" };
 static const char *G_HOST[] = {
-	"", "h", "a.b-c_~", "1.2.3.4", "%41", "%4", "h!$&'()*+,;=", "h x",
+	"", "h", "a.b-c_~", "1.2.3.4", "%41", "%4", "h!$&'()*+,;=", "h x", "h\xe9",
 	"[::1]", "[1:2::3]", "[::ffff:1.2.3.4]", "[v1.a]", "[vF.a:b]", "[::1", "[v1]", "[]", "[::1]x", "[1.2.3.4]",
 	"unix:/s:", "unix:s:", "unix::", "unix:", "unix:/a/b.sock:", "unix", "xunix:/s:",
 };
 static const char *G_PORT[] = { "", ":", ":0", ":80", ":65535", ":65536", ":08", ":8x" };
 /* the first Q_* entries of these three form the smaller quick-tier product (-P gsub=1) */
-static const char *G_PATH[] = { "", "/", "/p", "p", "//x", "p:q", "/a b", "/%4", "/a//b", "/a/b", "p/q", "./p:q", "/%41", "/p[]" };
+static const char *G_PATH[] = { "", "/", "/p", "p", "//x", "p:q", "/a b", "/%4", "/a//b", "/\xe9\x01", "/a/b", "p/q", "./p:q", "/%41", "/p[]" };
 static const char *G_QUERY[] = { NULL, "", "q", "a b", "%", "a=b&c=d", "q?r/", "%41" };
 static const char *G_FRAG[] = { NULL, "", "f#g", "a b", "f", "f?/", "%4" };
-#define Q_PATH 9
+#define Q_PATH 10
 #define Q_QUERY 5
 #define Q_FRAG 4
 static int n_path, n_query, n_frag;
@@ -350,7 +350,8 @@ static void item_gram(uint64_t i)
 #define UNSET "\1"
 static const char *S_SCHEME[] = { UNSET, "http", "1a" };
 static const char *S_USER[] = { UNSET, "", "u:p", "u@x" };
-static const char *S_HOST[] = { UNSET, "", "h", "1", "[::1]", "[v1.a]", "a:1", "a/b", "[::1" };
+/* "X>Y": evhttp_uri_set_host(X) followed by evhttp_uri_set_host(Y); Y = "~" clears with NULL */
+static const char *S_HOST[] = { UNSET, "", "h", "1", "[::1]", "[v1.a]", "a:1", "a/b", "[::1", "[::1]>h", "h>[::1]", "[::1]>~" };
 static const char *S_UNIX[] = { UNSET, "/s", "", "a:b" };
 static const int S_PORT[] = { -1, 0, 80, 65535, 65536, -2 };
 static const char *S_PATH[] = { UNSET, "", "/", "/p", "p", "//x", "a:b", "./a:b", "/p?q", "/a b" };
@@ -397,6 +398,13 @@ static void item_set(uint64_t i)
 #define SET(fn, v, bit) do { if (strcmp((v), UNSET)) { MC_COUNT("setter_calls"); if (fn(u, (v)) == 0) accepted |= BIT(bit); else MC_COUNT("setter_rejections"); } } while (0)
 	SET(evhttp_uri_set_scheme, S_SCHEME[sc], C_SCHEME);
 	SET(evhttp_uri_set_userinfo, S_USER[us], C_USERINFO);
+	if (strchr(S_HOST[ho], '>')) {
+		char first[16]; const char *second = strchr(S_HOST[ho], '>') + 1;
+		snprintf(first, sizeof first, "%.*s", (int)(second - 1 - S_HOST[ho]), S_HOST[ho]);
+		MC_COUNTN("setter_calls", 2);
+		if (evhttp_uri_set_host(u, first) != 0) MC_COUNT("setter_rejections");
+		if (evhttp_uri_set_host(u, strcmp(second, "~") ? second : NULL) == 0) accepted |= BIT(C_HOST); else MC_COUNT("setter_rejections");
+	} else
 	SET(evhttp_uri_set_host, S_HOST[ho], C_HOST);
 	SET(evhttp_uri_set_unixsocket, S_UNIX[un], C_UNIX);
 	MC_COUNT("setter_calls");
@@ -431,6 +439,7 @@ static void item_set(uint64_t i)
 		m = 0;
 		if (mc_replaying()) printf("  re-parse: rejected\n");
 	}
+	if (u2 && !m) MC_COUNT("set_roundtrip_identical");
 	if (!u2 || m) {
 		/* Classify by what about the built URI makes it unrepresentable, so
 		 * that each such class is one finding and anything unexplained gets
@@ -456,11 +465,16 @@ static void item_set(uint64_t i)
 			struct cause *c = &causes[k];
 			if (!c->active) continue;
 			if ((u2 && (m & c->explains)) || (!u2 && c->explains_failure)) {
+				/* these classes hit hundreds of thousands of items: report the
+				 * first ones of each worker in full, count the rest */
+				static unsigned hits[16];
+				MC_COUNT("set_unrepresentable_class_hits");
+				left &= ~c->explains;
+				if (!u2) explained_failure = 1;
+				if (hits[k]++ >= 32 && !mc_replaying()) continue;
 				snprintf(key, sizeof key, "C28/setters/%s", c->name);
 				mc_fail(key, "flags=%#x built %s; join gave %s which %s%s", fl, vis_comps(&b), vis(joined),
 				    u2 ? "re-parses to " : "is rejected", u2 ? vis_comps(&c2) : "");
-				left &= ~c->explains;
-				if (!u2) explained_failure = 1;
 			}
 		}
 		if (!u2 && !explained_failure)
